@@ -688,7 +688,7 @@ PROPS = {
     "C06": {
         "level": "proof",
         "level_prefix": "Partial proof -- contracts discharged without bound on the mechanisms named below, not the whole statement (bounded stand-ins and what is left out are listed): ",
-        "units": ["symbols"],
+        "units": ["symbols", "zfsource", "zfinherit"],
         "vx_search": {"bin": "c06_search_roundtrip", "crate": "replay_net", "release": True,
                       "what": "100 records of 28 types with boundary field values (names with every kind of octet and of 255 octets, character "
                               "strings with all octet values / 255 octets / spaces and quotes, TXT with up to 300 strings, empty binary fields, "
@@ -721,7 +721,7 @@ PROPS = {
             {"bin": "d8_owner_name_special_chars", "crate": "replay_net", "finding": "D8"},
             {"bin": "d17_owner_leading_dollar", "crate": "replay_net", "finding": "D17"},
         ],
-        "explanation": "Verus (unit symbols): Symbol::{from_octet, quoted_from_octet, display_from_octet} choose exactly the specified "
+        "explanation": "The reading half: the units of C07 that put the zone-file reader under contract also run here -- zfsource (the tokenizer and the in-place conversion of names, character strings and octets: a character string of up to 255 octets is accepted on both conversion paths) and zfinherit (a record gets the class and TTL written on its line). Verus (unit symbols): Symbol::{from_octet, quoted_from_octet, display_from_octet} choose exactly the specified "
                        "escape class per octet, Symbol::into_octet / is_word_char are exact, and the chosen symbol means the octet. Kani: "
                        "per-symbol writer/reader agreement, complete over all octet values (the escaping rules shared by the presentation "
                        "writer and the zone-file reader are per octet and context-free, so all 256 cases decide this layer); binary "
